@@ -53,6 +53,8 @@ Taint(k, T, hit) ==
          [] OTHER -> Taint(k + 1, [T EXCEPT ![i.out] = T[i.a]], hit)
 LabelConsumed == Taint(1, [r \in 0..(cur.circ.mr - 1) |-> IF r \in AlteredRegs THEN {r} ELSE {}], FALSE)
 
+ChannelLoss(err) == err \in {"PreprocessingError.ChannelErr.RecvError", "PreprocessingError.ChannelErr.SendError",
+                             "ChannelError.RecvError", "ChannelError.SendError"}
 V(prop, what, p) == [prop |-> prop, what |-> what, p |-> p]
 FamProp == IF cur.tag.fam = "online" THEN "C03" ELSE "C04"
 
@@ -64,6 +66,13 @@ EndViol(en) ==
   \cup (IF cur.tag.expect = "victims" /\ Applied(en) /\ (LabelKind => LabelConsumed)
         THEN { V(FamProp, cur.tag.what \o ": victim returned " \o res[p].kind \o " instead of Err", p) :
                  p \in { q \in Victims \cap Honest : res[q].kind # "err" } }
+        ELSE {})
+  \* "detect": the victim has to notice by itself; losing the peer (which, being the honest code behind a tampering
+  \* channel, stops on its own) is no detection
+  \cup (IF cur.tag.expect = "detect" /\ Applied(en) /\ (\A k \in 1..Len(en.applied) : en.applied[k])
+        THEN { V(FamProp, cur.tag.what \o ": victim did not detect it (returned " \o res[p].kind
+                          \o (IF res[p].kind = "err" THEN " " \o res[p].err ELSE "") \o ")", p) :
+                 p \in { q \in Victims \cap Honest : res[q].kind # "err" \/ ChannelLoss(res[q].err) } }
         ELSE {})
   \cup (IF ~Explained
         THEN { V("C02", "honest output parties accepted a value that no input of the corrupted party explains", 0) } ELSE {})
